@@ -340,7 +340,7 @@ fn c13(tier: Tier, seed: u64) -> i32 {
         let nt = sc.preset.num_tune().min(3);
         sc.preset.set_num_tune(nt);
         fix_early_window(&mut sc.preset, nt);
-        let nd = sc.preset.num_draws().min(3).max(if nt == 0 { 1 } else { 0 });
+        let nd = sc.preset.num_draws().min(3);
         sc.preset.set_num_draws(nd);
         sc.n_schedules = 2;
         sc.enumerate_faults = true;
@@ -381,7 +381,7 @@ fn c13(tier: Tier, seed: u64) -> i32 {
         let nt = sc.preset.num_tune().min(8);
         sc.preset.set_num_tune(nt);
         fix_early_window(&mut sc.preset, nt);
-        let nd = sc.preset.num_draws().min(8).max(if nt == 0 { 1 } else { 0 });
+        let nd = sc.preset.num_draws().min(8);
         sc.preset.set_num_draws(nd);
         sc.vars.truncate(3);
         sc.chunk_size = *r.pick(&[1u64, 2, 4, nd.max(1)]);
@@ -425,7 +425,7 @@ pub fn gen_store(seed: u64, prop: &'static str, backends: &[Backend]) -> StoreSc
     let is_mclmc = matches!(kind, crate::swarm::PresetKind::DiagMclmc | crate::swarm::PresetKind::LowRankMclmc | crate::swarm::PresetKind::FlowMclmc);
     let num_tune = *rc.pick(&[0u64, 1, 2, 3, 5, 8, 13, 20]);
     let num_draws = *rc.pick(&[0u64, 1, 2, 3, 5, 8, 13]);
-    let num_draws = if num_tune + num_draws == 0 { 1 } else { num_draws };
+    // (num_tune = num_draws = 0 included: a trace without any draw must finalise to empty columns)
     let so = SwarmOpts::default();
     let mut preset = crate::swarm::gen_preset(&mut rc, kind, num_tune, num_draws, &so);
     let nc = rc.range(1, 4) as usize;
@@ -537,7 +537,7 @@ fn c15(tier: Tier, seed: u64) -> i32 {
         let nt = sc.preset.num_tune().min(8);
         sc.preset.set_num_tune(nt);
         fix_early_window(&mut sc.preset, nt);
-        let nd = sc.preset.num_draws().min(8).max(if nt == 0 { 1 } else { 0 });
+        let nd = sc.preset.num_draws().min(8);
         sc.preset.set_num_draws(nd);
         sc.chunk_size = *r.pick(&[1u64, 2, 3, 4]);
         sc.vars.truncate(3);
@@ -550,7 +550,7 @@ fn c15(tier: Tier, seed: u64) -> i32 {
         let nt = sc.preset.num_tune().min(8);
         sc.preset.set_num_tune(nt);
         fix_early_window(&mut sc.preset, nt);
-        let nd = sc.preset.num_draws().min(8).max(if nt == 0 { 1 } else { 0 });
+        let nd = sc.preset.num_draws().min(8);
         sc.preset.set_num_draws(nd);
         sc.vars.truncate(3);
         sc.fail_write = Some(r.range(60, 400));
